@@ -304,7 +304,12 @@ func installSeams() (restore func()) {
 			if existed {
 				s.existed++
 			}
-			s.record(fsop{kind: "mcreate", a: n, tok: fmt.Sprintf("mcreate(%d)", n)}, false)
+			tok := fmt.Sprintf("mcreate(%d)", n)
+			if fi, e := os.Stat(fileName); e == nil && fi.Size() != 0 {
+				// creating a manifest must leave an EMPTY file (the model's create truncates)
+				tok += fmt.Sprintf("!size=%d", fi.Size())
+			}
+			s.record(fsop{kind: "mcreate", a: n, tok: tok}, false)
 			return &manifestWriter{BufioWriter: w, s: s, n: n}, nil
 		},
 		func(name string, data []byte, perm os.FileMode) error {
@@ -333,7 +338,11 @@ func installSeams() (restore func()) {
 			return w, err
 		}
 		fam, f, _ := parseTablePath(s.root, fileName)
-		s.record(fsop{kind: "tcreate", a: fam, b: f, tok: fmt.Sprintf("tcreate(%d/%d)", fam, f)}, false)
+		ttok := fmt.Sprintf("tcreate(%d/%d)", fam, f)
+		if fi, e := os.Stat(fileName); e == nil && fi.Size() != 0 {
+			ttok += fmt.Sprintf("!size=%d", fi.Size())
+		}
+		s.record(fsop{kind: "tcreate", a: fam, b: f, tok: ttok}, false)
 		return &tableWriter{BufioWriter: w, s: s, fam: fam, f: f, path: fileName}, nil
 	})
 	cur := kv.VerifC01CurrentSeams()
@@ -764,6 +773,8 @@ type hist struct {
 	nFlush   int
 	nImages  int
 	failed   bool
+	scripted bool   // a directed scenario: no random deaths
+	forceDie string // die once at the first image whose previous operation has this kind (inside the next op that has one)
 }
 
 func (h *hist) option() kv.StoreOption {
@@ -868,8 +879,32 @@ func (h *hist) reopenImage(path string) (r reopened) {
 // property-level observations of the live store around the operation.
 func (h *hist) checkImages(opDesc string, ops []fsop, before, after string, pristine string) {
 	amb := ambiguous(ops)
+	// window of initJournal: after the new manifest was created, before CURRENT is renamed
+	mi, ri, newNo := -1, -1, int64(0)
+	for i, o := range ops {
+		if o.kind == "mcreate" && mi < 0 {
+			mi, newNo = i, o.a
+		}
+		if o.kind == "currename" && ri < 0 {
+			ri = i
+		}
+	}
 	for _, im := range h.imgs {
 		h.nImages++
+		// partial-manifest variant: the manifest being written (NOT named by CURRENT) loses the last
+		// byte of its last record; the image is then reopened twice (see junkVariant)
+		jpath := ""
+		if mi >= 0 && !im.extra && im.opIdx > mi+1 && (ri < 0 || im.opIdx <= ri) {
+			mp := filepath.Join(im.path, version.ManifestFileName(table.FileNumber(newNo)))
+			if fi, err := os.Stat(mp); err == nil && fi.Size() > 0 {
+				h.imgSeq++
+				jpath = filepath.Join(h.base, fmt.Sprintf("junk-%d", h.imgSeq))
+				if err := copyDir(im.path, jpath); err != nil || os.Truncate(filepath.Join(jpath, filepath.Base(mp)), fi.Size()-1) != nil {
+					os.RemoveAll(jpath)
+					jpath = ""
+				}
+			}
+		}
 		path := im.path
 		if path == pristine {
 			// the history will continue on this image: reopen a copy, keep the image untouched
@@ -944,7 +979,42 @@ func (h *hist) checkImages(opDesc string, ops []fsop, before, after string, pris
 			}
 		}
 		h.c.Op(fmt.Sprintf("%s %d", opName, im.k), out)
+		if jpath != "" {
+			h.junkVariant(opDesc, im, jpath, newNo, before, after)
+			os.RemoveAll(jpath)
+		}
 	}
+}
+
+// junkVariant: a crash image in which the manifest under construction ends in a partial record.
+// Within C01's quantifier such a file exists when a snapshot record is larger than the journal's
+// 256 KB write buffer (two write calls); the harness reaches the same disk by cutting a small one.
+// CURRENT does not name that file, so recovery must not care: the image is reopened, closed and
+// reopened again (the second open reads what the first one wrote under the re-used MANIFEST name).
+func (h *hist) junkVariant(opDesc string, im image, jpath string, newNo int64, before, after string) {
+	h.c.Branch("region:rollover-over-partial-manifest")
+	r1 := h.reopenImage(jpath)
+	r2 := reopened{}
+	if r1.ok {
+		r2 = h.reopenImage(jpath)
+	}
+	var out string
+	switch {
+	case !r1.ok:
+		out = "err1 fs=" + r1.trace
+		h.c.Fail("reopen-error-after-partial-manifest", fmt.Sprintf("during %s, image after %d FS operations with a partial MANIFEST-%06d (not CURRENT): reopening failed: %s", opDesc, im.k, newNo, r1.err))
+	case !r2.ok:
+		out = "err2 fs1=" + r1.trace + " fs=" + r2.trace
+		h.c.Fail("reopen-error-after-partial-manifest", fmt.Sprintf("during %s, image after %d FS operations with a partial MANIFEST-%06d (not CURRENT): the first reopen succeeded, the NEXT one failed: %s", opDesc, im.k, newNo, r2.err))
+	default:
+		out = fmt.Sprintf("ok fs1=%s fs=%s st=%s c=%s ls=%s fresh=%d", r1.trace, r2.trace, r2.obs.stateTok(), r2.obs.contentAll(), r2.ls, r2.obs.next)
+		for _, got := range []string{r1.obs.propKey(), r2.obs.propKey()} {
+			if got != before && got != after {
+				h.c.Fail("content-not-atomic", fmt.Sprintf("during %s, image after %d FS operations with a partial MANIFEST-%06d: recovered %q is neither %q nor %q", opDesc, im.k, newNo, got, before, after))
+			}
+		}
+	}
+	h.c.Op(fmt.Sprintf("crashj %d %d", im.k, newNo), out)
 }
 
 func (h *hist) dropImages(keep string) {
@@ -1003,7 +1073,17 @@ func (h *hist) runOp(name string, dieAllowed bool, exec func() (opLine, outPrefi
 	}
 	// process death inside this operation? (chosen first: that image must stay untouched)
 	var dieAt *image
-	if dieAllowed && len(ops) > 0 && !h.failed && h.rng.Intn(100) < 13 {
+	if dieAllowed && h.forceDie != "" && !h.failed {
+		for _, im := range h.imgs {
+			if !im.extra && im.opIdx > 0 && im.opIdx < len(ops) && im.prev == h.forceDie {
+				x := im
+				dieAt = &x
+				h.forceDie = ""
+				break
+			}
+		}
+	}
+	if dieAt == nil && !h.scripted && dieAllowed && len(ops) > 0 && !h.failed && h.rng.Intn(100) < 13 {
 		amb := ambiguous(ops)
 		var cands []image
 		for _, im := range h.imgs {
@@ -1387,6 +1467,20 @@ func runCase(c *core.Ctx, i int, maxOps int) error {
 		dropSession(h.sess)
 	}()
 	famNames := []string{"10", "11", "12"}
+	if i < nScenarios {
+		h.scripted = true
+		h.imgs = nil
+		h.takeImage(false)
+		h.sess.ops = nil
+		h.checkImages("start", nil, "", "", "")
+		h.dropImages("")
+		runScenario(h, i)
+		if h.nFlush > 0 && h.nImages > 5 {
+			c.NonTrivial()
+		}
+		tornObservation(h)
+		return nil
+	}
 	nOps := 5 + rng.Intn(maxOps-4)
 	// image 0: nothing exists yet
 	h.imgs = nil
@@ -1496,6 +1590,104 @@ func runCase(c *core.Ctx, i int, maxOps int) error {
 	}
 	tornObservation(h)
 	return nil
+}
+
+// nScenarios directed histories run first in every seed (values are still drawn from the case's PRNG).
+const nScenarios = 3
+
+func (h *hist) randKVs(n int) [][2]int64 {
+	var kvs [][2]int64
+	k := int64(h.rng.Intn(4))
+	for j := 0; j < n && k < maxKeyU; j++ {
+		kvs = append(kvs, [2]int64{k, int64(1 + h.rng.Intn(1000))})
+		k += int64(1 + h.rng.Intn(3))
+	}
+	return kvs
+}
+
+func (h *hist) flushNow(name string, withSeq bool) {
+	var seqs [][2]int64
+	if withSeq {
+		seqs = [][2]int64{{1, int64(h.rng.Intn(1000))}}
+	}
+	h.doFlushStart(name, seqs, h.randKVs(2+h.rng.Intn(3)))
+	if h.store != nil && !h.failed {
+		h.doFlushCommit(name)
+	}
+}
+
+// runScenario: regions every seed must visit.
+//
+//	0  committed data, then sessions WITHOUT any commit, each followed by another open (all FS points
+//	   inside open are crash images): an idle session must not make the next open touch the live manifest
+//	1  a flusher that has created its table but not committed while a compaction of the SAME family
+//	   runs (merge + deferred deleteObsoleteFiles), then commits; close; reopen
+//	2  an open dies after a snapshot record of the new manifest (CURRENT not switched); the next open
+//	   re-uses the same MANIFEST number (the file exists, with content); then two more opens
+func runScenario(h *hist, which int) {
+	step := func(f func()) {
+		if !h.failed {
+			f()
+		}
+	}
+	open := func() {
+		step(func() {
+			if h.store == nil {
+				h.doOpen()
+			}
+		})
+	}
+	closeS := func() {
+		step(func() {
+			if h.store != nil && len(h.flushers) == 0 {
+				h.doClose()
+			}
+		})
+	}
+	thr := 2
+	open()
+	step(func() { h.doCreateFamily("10", thr) })
+	switch which {
+	case 0:
+		h.c.Branch("scenario:idle-session-then-open")
+		step(func() { h.flushNow("10", true) })
+		step(func() { h.doCreateFamily("11", 0) })
+		step(func() { h.flushNow("11", false) })
+		for r := 0; r < 3; r++ {
+			closeS()
+			open() // idle session: nothing is committed before the next close
+		}
+		step(func() { h.flushNow("10", false) })
+		closeS()
+		open()
+	case 1:
+		h.c.Branch("scenario:open-flush-spans-compaction")
+		step(func() { h.flushNow("10", true) })
+		step(func() { h.flushNow("10", false) })
+		step(func() { h.doFlushStart("10", nil, h.randKVs(3)) }) // table created, not committed
+		step(func() { h.doCompact("10") })                        // merge of the two level-0 files + cleanup
+		step(func() { h.doCompact("10") })                        // below the threshold: cleanup only
+		step(func() {
+			if _, ok := h.flushers["10"]; ok {
+				h.doFlushCommit("10")
+			}
+		})
+		closeS()
+		open()
+	case 2:
+		h.c.Branch("scenario:open-dies-inside-snapshot")
+		step(func() { h.flushNow("10", true) })
+		step(func() { h.doCreateFamily("11", 1) })
+		step(func() { h.flushNow("11", true) })
+		closeS()
+		h.forceDie = "rec"
+		open() // dies after a snapshot record
+		open() // re-uses the MANIFEST number
+		closeS()
+		open()
+		closeS()
+		open()
+	}
 }
 
 func anyKey(m map[string]*flusherSt, rng *rand.Rand) string {
